@@ -58,6 +58,9 @@ Inductive case :=
 | CRRSeq (ring : list nat) (c0 : N) (k : nat) (impl : list nat) (impl_c : N)
 (* [threads] goroutines x [per] picks concurrently: picks per target, final cursor *)
 | CRRConc (ring : list nat) (c0 : N) (threads per : nat) (impl_counts : list nat) (impl_c : N)
+(* rr lookups through route.GetTable() while a writer installs many tables: what ONE table generation served
+   ([n] picks attributed to it by target identity), its route's ring, its cursor when installed and at the end *)
+| CRRTable (ring : list nat) (c0 : N) (n : nat) (impl_counts : list nat) (impl_c : N)
 (* [threads] goroutines x [per] lookups with the random picker on a route with [ntargets] targets whose
    ring is [ring]: picks per target, recovered panics, picks that are not a target of the route *)
 | CRndConc (ring : list nat) (threads per : nat) (impl_counts : list nat) (impl_panics impl_foreign : nat)
@@ -134,6 +137,14 @@ Definition check_case (c : case) : N :=
       let same := same0 && exact (want c0) in
       let spec := same0 && (exact (want c0) || exact (want (N.modulo (c0 + 1) two64))) in
       verdict same spec None (Nat.ltb 1 threads)
+  | CRRTable ring c0 n impl_counts impl_c =>
+      (* C06_rr_exact_per_table: the picks a table served are the next n values of ITS cursor *)
+      let same0 := Nat.eqb (sum_nat impl_counts) n && N.eqb impl_c (N.modulo (c0 + N.of_nat n) two64) in
+      let want c := if N.leb (c + N.of_nat n) two64 then window ring c n
+                    else map (slot_id ring) (consecutive c n) in
+      let exact w := all2 (fun t cnt => Nat.eqb (count_nat t w) cnt) (seq 0 (length impl_counts)) impl_counts in
+      let same := same0 && exact (want c0) in
+      verdict same same None (Nat.ltb 1 n)
   | CRndConc ring threads per impl_counts impl_panics impl_foreign =>
       (* C06_rnd_pick_member: no panic, every pick a member of the ring (a target with a positive weight) *)
       let same := Nat.eqb impl_panics 0 && Nat.eqb impl_foreign 0
